@@ -251,3 +251,58 @@ def r_zerocol(A, ctx, scope, rule="R-ZEROCOL"):
                         "warm-started coefficient on an all-zero column / group is never shrunk",
                    loc=loc(f, st))
     ctx.floor(rule, n, scope.get("floor", 10))
+
+
+RANDOM_DRAWS = {"randn", "rand", "normal", "standard_normal", "random", "random_sample", "uniform"}
+
+
+def r_powerstart(A, ctx, scope, rule="R-POWER"):
+    """C09: the power iteration behind the sparse global Lipschitz constants"""
+    ctx.rule(rule, "power method (spectral_norm): the start vector is drawn from a continuous "
+             "distribution (a fixed start vector is orthogonal to the dominant singular vector "
+             "for some designs - centred columns for the constant vector - and the iteration "
+             "then returns a smaller singular value, i.e. a constant below the curvature)")
+    m = A.prog.modules.get("skglm.utils.sparse_ops")
+    f = m.functions.get("spectral_norm") if m else None
+    if f is None:
+        raise AnalysisError("skglm.utils.sparse_ops.spectral_norm missing")
+    loops = [st for st in f.node.body if isinstance(st, ast.For)]
+    n = 0
+    if not loops:
+        ctx.ob(rule, f"{f.fq}::loop", None, detail="no iteration loop found")
+        return
+    lp = loops[0]
+    # the vector the operator is applied to inside the loop
+    vec = None
+    prod = None
+    for st in lp.body:
+        if isinstance(st, ast.Assign) and isinstance(st.value, ast.Call):
+            r = A.prog.resolve(f.module, ast.unparse(st.value.func))
+            if r is not None and getattr(r, "name", "") == "_XXT_dot_vec":
+                names = [a.id for a in st.value.args if isinstance(a, ast.Name)]
+                cands = [x for x in names if x not in f.params]
+                vec = cands[0] if cands else None
+                prod = st.targets[0].id if isinstance(st.targets[0], ast.Name) else None
+    if vec is None or prod is None:
+        ctx.ob(rule, f"{f.fq}::operator", None, detail="application of X X^T not recognised")
+        return
+    # start vector: definitions of `vec` before the loop, closed over the names they use
+    pre = [st for st in f.node.body if st.lineno < lp.lineno]
+    need, seen_random = {vec}, False
+    for st in reversed(pre):
+        tg = st.targets[0] if isinstance(st, ast.Assign) else getattr(st, "target", None)
+        if tg is None or not isinstance(tg, ast.Name) or tg.id not in need:
+            continue
+        val = st.value
+        need |= names_in(val)
+        for c in ast.walk(val):
+            if isinstance(c, ast.Call) and isinstance(c.func, ast.Attribute) and c.func.attr in RANDOM_DRAWS \
+                    and "random" in ast.unparse(c.func):
+                seen_random = True
+    n += 1
+    ctx.ob(rule, f"{f.fq}::start-vector", seen_random,
+           what="spectral_norm starts the power iteration from a fixed vector: for designs whose "
+                "dominant left singular vector is orthogonal to it (e.g. centred columns and the "
+                "constant vector) the iteration converges to a smaller singular value and the "
+                "sparse global Lipschitz constant is below the curvature", loc=loc(f, pre[0] if pre else f.node))
+    ctx.floor(rule, n, 1)
